@@ -3,11 +3,11 @@ from __future__ import annotations
 from appsession import *  # noqa
 
 ID = "C06"
-PROOF_MODULES = ["VncProofs.C06", "VncProofs.C02", "VncProofs.System", "VncProofs.C14Conv", "VncProofs.C07Sys"]
+PROOF_MODULES = ["VncProofs.C06", "VncProofs.C02", "VncProofs.System", "VncProofs.C14Conv", "VncProofs.C07Sys", "VncProofs.C06Sys"]
 THEOREMS = ["Vnc.C06_request_geometry", "Vnc.C06_region_request", "Vnc.C06_no_save_on_start", "Vnc.C06_commit_ends_update", "Vnc.C06_saved_is_screen",
             "Vnc.C06_pixels_are_screen", "Vnc.C06_commit_without_waiter", "Vnc.C06_capture_waits_for_pixels", "Vnc.C02_desktop_geometry", "Vnc.C01_seg_indep",
             "Vnc.sys_progress", "Vnc.Sys_seg_indep", "Vnc.Sys_chunkings", "Vnc.Sys_rechunk", "Vnc.sys_feed_rfb", "Vnc.C06_sys_saves_follow_commit",
-            "Vnc.C06_sys_save_is_screen", "Vnc.sys_screen_is_painter", "Vnc.C06_capture_over_two_updates", "Vnc.sys_update_app", "Vnc.C06_sys_capture_update"]
+            "Vnc.C06_sys_save_is_screen", "Vnc.sys_screen_is_painter", "Vnc.C06_capture_over_two_updates", "Vnc.sys_update_app", "Vnc.C06_sys_capture_update", "Vnc.C06_sys_requests_current", "Vnc.C06_sys_geometry_invariant"]
 TRUSTED = [
     "Lean 4.33 kernel; standard axioms only",
     "Twisted's Deferred (self.deferred fired by commitUpdate, chaining of the script on it) is abstracted by the waiter / chain model of VncModel/Client.lean; validated by the correspondence run against the real vncdo, not proved",
